@@ -180,6 +180,8 @@ var funcSpecs = []funcSpec{
 	{rel: "plugin", name: "writeStanza", abstract: marshalAbstract, opaque: marshalOpaque, threaded: marshalThreaded},
 	{rel: "plugin", name: "writeStanzaWithBody", abstract: marshalAbstract, opaque: marshalOpaque, threaded: marshalThreaded},
 	{rel: "cmd/age", name: "(*LazyScryptIdentity).Unwrap", abstract: []string{"errors.Is", "format.DecodeString", "scrypt.Key", "age.aeadDecrypt"}},
+	{rel: "cmd/age", name: "(*EncryptedIdentity).Unwrap", abstract: []string{"main.decrypt", "errors.Is"},
+		opaque: map[string]string{"age.Identity": "ι"}, threaded: map[string][]string{"main.decrypt": {"i"}}},
 	{rel: "", name: "ParseRecipients", abstract: []string{"age.ParseX25519Recipient"}, opaque: map[string]string{"Recipient": "κ", "X25519Recipient": "κ"}, errInts: true},
 }
 
@@ -491,6 +493,10 @@ func (c *fctx) zero(n ast.Node, t types.Type) string {
 					for i := 0; i < st.NumFields(); i++ {
 						if _, isView := viewFields[fieldKey(nt, st.Field(i).Name())]; isView {
 							fs = append(fs, st.Field(i).Name()+"_lo := (0 : Int), "+st.Field(i).Name()+"_hi := (0 : Int)")
+							continue
+						}
+						if nilableFields[fieldKey(nt, st.Field(i).Name())] {
+							fs = append(fs, fieldName(st.Field(i).Name())+" := none")
 							continue
 						}
 						fs = append(fs, fieldName(st.Field(i).Name())+" := "+c.zero(n, st.Field(i).Type()))
@@ -872,6 +878,9 @@ func (c *fctx) expr(e ast.Expr) string {
 			switch sel.Kind() {
 			case types.FieldVal:
 				if _, ok := leanTypeOf(sel.Recv()); ok && len(sel.Index()) == 1 {
+					if c.nilableField(x) {
+						return "((" + c.expr(x.X) + ")." + fieldName(sel.Obj().Name()) + ".getD [])" // read as a value, nil is empty
+					}
 					return "(" + c.expr(x.X) + ")." + fieldName(sel.Obj().Name())
 				}
 			case types.MethodVal:
@@ -935,7 +944,13 @@ func (c *fctx) structLit(cl *ast.CompositeLit) string {
 			fs = append(fs, f.Name()+"_lo := (0 : Int), "+f.Name()+"_hi := (0 : Int)")
 			continue
 		}
-		if !ok {
+		if nilableFields[fieldKey(nt, f.Name())] {
+			if !ok {
+				v = "none"
+			} else {
+				v = "(Go.nilIfEmpty " + v + ")"
+			}
+		} else if !ok {
 			v = c.zero(cl, f.Type())
 		}
 		fs = append(fs, fieldName(f.Name())+" := "+v)
@@ -979,6 +994,15 @@ func (c *fctx) binary(at ast.Node, X ast.Expr, op token.Token, Y ast.Expr, opT t
 					}
 				}
 			}
+		}
+		// a nilable field compared with nil
+		if c.isNil(Y) && c.nilableField(X) {
+			se := ast.Unparen(X).(*ast.SelectorExpr)
+			f := "(" + c.expr(se.X) + ")." + fieldName(se.Sel.Name)
+			if op == token.EQL {
+				return "(" + f + ".isNone)"
+			}
+			return "(" + f + ".isSome)"
 		}
 		// a nilable slice variable compared with nil
 		if c.isNil(Y) {
@@ -1640,6 +1664,27 @@ func (c *fctx) refuseAliasingAppend(x *ast.CallExpr) {
 	})
 }
 
+// nilableFields: slice FIELDS ("pkg.Type.field") whose being nil is tested and differs from being empty: `Option` in the
+// Lean structure. A value assigned to one from a call result is taken to be nil exactly when it is empty (said in
+// the doc comment of the definition).
+var nilableFields = map[string]bool{
+	"main.EncryptedIdentity.identities": true,
+}
+
+// nilableField: e selects a nilable field
+func (c *fctx) nilableField(e ast.Expr) bool {
+	se, ok := ast.Unparen(e).(*ast.SelectorExpr)
+	if !ok {
+		return false
+	}
+	sel := c.info().Selections[se]
+	if sel == nil || sel.Kind() != types.FieldVal {
+		return false
+	}
+	nt := namedOf(sel.Recv())
+	return nt != nil && nilableFields[fieldKey(nt, sel.Obj().Name())]
+}
+
 func (c *fctx) isNilable(v *types.Var) bool {
 	if c.spec == nil || v == nil {
 		return false
@@ -1950,14 +1995,20 @@ func (t *ftr) structType(nt *types.Named) (string, bool) {
 			delete(t.structs, nt)
 			return "", false
 		}
-		if len([]rune(ft)) == 1 { // a type variable
-			dup := false
-			for _, v := range tyVars {
-				dup = dup || v == ft
+		// the type variables the field's type mentions (opaque types are single Greek letters)
+		for _, r := range ft {
+			if r >= 'α' && r <= 'ω' {
+				dup := false
+				for _, v := range tyVars {
+					dup = dup || v == string(r)
+				}
+				if !dup {
+					tyVars = append(tyVars, string(r))
+				}
 			}
-			if !dup {
-				tyVars = append(tyVars, ft)
-			}
+		}
+		if nilableFields[fieldKey(nt, f.Name())] {
+			ft = "(Option " + ft + ")"
 		}
 		fields = append(fields, fmt.Sprintf("  %s : %s", fieldName(f.Name()), ft))
 	}
@@ -2410,6 +2461,10 @@ func (c *fctx) assignTo(e *emitter, ind int, lhs ast.Expr, val string, define bo
 			if id, ok := ast.Unparen(l.X).(*ast.Ident); ok {
 				if v, ok := c.info().Uses[id].(*types.Var); ok && v.Parent() != c.fi.Pkg.Types.Scope() {
 					if _, ok := leanTypeOf(v.Type()); ok {
+						if c.nilableField(l) && val != "none" && !strings.HasPrefix(val, "(some ") {
+							c.sites = append(c.sites, fmt.Sprintf("nilable field (line %d): %s is assigned a value that is taken to be nil exactly when it is empty", c.t.pr.line(l.Pos()), c.t.pr.text(c.fi.Pkg, l)))
+							val = "(Go.nilIfEmpty " + val + ")"
+						}
 						e.add(ind, fmt.Sprintf("%s := { %s with %s := %s }", c.nameOf(v), c.nameOf(v), fieldName(sel.Obj().Name()), val))
 						return
 					}
